@@ -387,8 +387,10 @@ class Report:
         cov.update(self.notes)
         ev = {"property_id": self.pid, "tier": self.tier, "seed": seed(), "level": level, "coverage": cov,
               "assumptions": self.assumptions, "wall_s": round(wall, 2), "violations": len(self.violations)}
-        (VERIF / "evidence").mkdir(exist_ok=True)
-        (VERIF / "evidence" / (self.pid + ".json")).write_text(json.dumps(ev, indent=1, default=str))
+        # evidence/ describes runs against /repo itself; a run against another tree (VERIF_REPO, seeded-change evaluation) is kept apart
+        evdir = VERIF / "evidence" if str(REPO) == "/repo" else VERIF / ".work" / "evidence_other_tree"
+        evdir.mkdir(parents=True, exist_ok=True)
+        (evdir / (self.pid + ".json")).write_text(json.dumps(ev, indent=1, default=str))
         for k, d in sorted(self.known_hits.items()):
             print("KNOWN-FINDING: property=%s %s :: %s" % (self.pid, k, d))
         seen = set()
